@@ -12,7 +12,7 @@ From Coq Require Import List ZArith NArith Bool.
 From BBS Require Import Common.Sx Buffer.Source Buffer.Validate Buffer.Convert Buffer.ErrHandler
   Buffer.StreamProofs Buffer.ValidateProofs Buffer.ErrHandlerProofs Buffer.ClosedOnceProofs
   Buffer.ErrHandlerStackProofs Buffer.StackRuleProofs Buffer.ValidateReaderProofs Buffer.ConvertProofs
-  Buffer.EHFullCarry Buffer.EHFullReader Buffer.EHFullMethods Buffer.EHFullStack Buffer.EHFullMon Run.R09 Run.R16 Run.R16Proofs.
+  Buffer.EHFullCarry Buffer.EHFullReader Buffer.EHFullMethods Buffer.EHFullStack Buffer.EHFullPrefix Buffer.EHFullMon Run.R09 Run.R16 Run.R16Proofs.
 Import ListNotations.
 Open Scope N_scope.
 
@@ -151,6 +151,21 @@ Theorem no_dup_no_skip_every_method_stack : forall H cfg fuel C b0 anss m,
   y_data (run_stack H cfg fuel b0 anss m) = expected_slice m C.
 Proof. exact run_stack_no_dup_no_skip. Qed.
 Print Assumptions no_dup_no_skip_every_method_stack.
+
+(** "... or an error": for the streaming methods (IntoWriter, ToChunkReader at
+    any offset and chunk size, ToReader with any read sizes) on a stack of at
+    least one handler, WHATEVER the outcome — completion, validation failure,
+    an error answer of the handlers, out of fuel — the bytes the consumer has
+    received are a prefix of the expected slice of [C]: nothing duplicated,
+    skipped or foreign is ever handed out.  (Buffer/EHFullPrefix.v: the
+    validating readers satisfy the carrier law too — they hand out what the
+    reader underneath handed out, possibly withholding the end, and say io.EOF
+    only when the reader underneath did.) *)
+Theorem delivered_is_prefix_every_streaming_method : forall H cfg fuel C b0 anss m,
+  carries_full C b0 -> Forall (Forall (ans_carries C)) anss -> anss <> [] -> streaming m ->
+  exists rest, expected_slice m C = y_data (run_stack H cfg fuel b0 anss m) ++ rest.
+Proof. exact run_stack_delivered_prefix. Qed.
+Print Assumptions delivered_is_prefix_every_streaming_method.
 
 (** The content is still validated across the stitched parts: the validated
     stream above the error-handling reader completes only if the stitched
@@ -416,3 +431,14 @@ Example stitching_clauses_fire_outside_the_domain :
   run16 inp = L [L [A 1; A 2; A 7]; A (-1); L []; L [A 1]; L [L []]; L [A 1]; L []; L [A 1]] /\
   mon16 inp (run16 inp) = [3; 4; 7; 5]%Z.
 Proof. vm_compute. auto. Qed.
+
+(** Non-vacuity of the prefix theorem on a failing run: both buffers carry
+    1,2,3,4 but the digest says 3 bytes: the validator stops the stream (code 13)
+    after 1,2 — a prefix of the object — and withholds the rest. *)
+Example c16_prefix_on_failure :
+  let H := lookup [([1; 2; 3], [9; 9])] in
+  let cfg := mkVcfg [9; 9] 3 13 in
+  run_stack H cfg 60 (BChunk [Chunk [1]; Err 14]) [[Replace (BReader [Chunk [1; 2]; Chunk [3; 4]; Eof] false)]]
+            (MToChunkReader 0 1 0)
+  = mkOut16s [1; 2] (ECode 13) [] [false] [[HOnError (ECode 14); HDone]] [1%nat; 1%nat] [].
+Proof. vm_compute. reflexivity. Qed.
